@@ -162,13 +162,24 @@ Definition put_off (a : addr) (v : Z) : M unit :=
 (** * Invocation context *)
 Record callctx := mkCtx {
   signers : list addr;     (* Tx.GetSignatureAddresses() *)
-  caller : option addr;    (* ContextRef.CallingContext().ContractAddress, if any *)
+  stack : list addr;       (* ContextRef contexts below the running token contract, entry first
+                              (entry script, contracts calling one another, ...) *)
   now : Z;                 (* native.Time (uint32) *)
   preexec : bool;          (* native.PreExec *)
   v2on : bool;             (* native.Height >= config.GetAddDecimalsHeight() *)
   wrap64 : bool            (* native.Height <= config.GetUint64WrappingHeight(): OntTransfer decodes
                               amounts with DecodeVarUintWrapping (low 64 bits of any value >= 0) *)
 }.
+
+(** SmartContract.CallingContext(): Contexts[len-2], i.e. the context directly below the
+    running contract - the immediate caller only, never a context further down the stack. *)
+Fixpoint last_opt (l : list addr) : option addr :=
+  match l with
+  | [] => None
+  | [x] => Some x
+  | _ :: r => last_opt r
+  end.
+Definition caller (c : callctx) : option addr := last_opt (stack c).
 
 (** SmartContract.CheckWitness: checkAccountAddress || checkContractAddress *)
 Definition check_witness (c : callctx) (a : addr) : bool :=
@@ -287,10 +298,10 @@ Section Token.
 
   (** ** ONT contract (ont/ont.go) *)
 
-  (** The context of a NativeCall made by the ONT contract: same transaction, the calling
-      context is the ONT contract. *)
+  (** The context of a NativeCall made by the ONT contract: same transaction, the ONT contract's
+      context is pushed, so it is the calling context of the ONG contract. *)
   Definition from_ont (c : callctx) : callctx :=
-    mkCtx (signers c) (Some tk_ont_addr) (now c) (preexec c) (v2on c) (wrap64 c).
+    mkCtx (signers c) (stack c ++ [tk_ont_addr]) (now c) (preexec c) (v2on c) (wrap64 c).
 
   (** grantOng(native, contract, address, balance) *)
   Definition grant_ong (c : callctx) (a : addr) (balance : Z) : M unit :=
